@@ -14,7 +14,7 @@
 (*   body: a = the off-diagonal cells of A on (u, v1, v2[, v3]) in column-major   *)
 (*         order; structural: s = decimal hash of a, ix = (s == mn), id[ix];      *)
 (*         functional: ix = (m . a == n), id[ix] with multiplicities; F[id, nodes]*)
-(*         and f[id] are incremented.                                             *)
+(*         and tot[id] are incremented.                                             *)
 (* The library (rows m, hashes mn, edge counts n, ids) is the operator form of    *)
 (* make_motif34lib (Motifs!GenId), whose refinement MotifLibImpl proves.          *)
 (* Neighbourhoods are taken in the symmetrised matrix As = A | A.T.               *)
@@ -32,8 +32,8 @@ CONSTANTS N,          \* nodes
           AsCoded,    \* see above
           Inputs,     \* "dir" all digraphs | "und" all symmetric | "orient" supports x orientation schemes
           Lemmas      \* also check the L0 lemmas (permutation invariance etc.) in the initial state
-VARIABLES A, pc, u, L1, i1, L2, i2, L3, i3, f, F, seen
-vars == <<A, pc, u, L1, i1, L2, i2, L3, i3, f, F, seen>>
+VARIABLES A, pc, u, L1, i1, L2, i2, L3, i3, tot, cnt, seen
+vars == <<A, pc, u, L1, i1, L2, i2, L3, i3, tot, cnt, seen>>
 
 DPairs == {p \in (1..N) \X (1..N) : p[1] # p[2]}
 UPairs == {p \in (1..N) \X (1..N) : p[1] < p[2]}
@@ -45,9 +45,9 @@ Orient(E, s) ==
     [] s = "alt"  -> {e \in E : (e[1] + e[2]) % 2 = 0} \cup Rev({e \in E : (e[1] + e[2]) % 2 = 1})
     [] s = "mix"  -> {e \in E : (e[1] * e[2]) % 3 # 1} \cup Rev({e \in E : (e[1] + e[2]) % 3 # 0})
 InputSet ==
-  CASE Inputs = "dir" -> {MatOf(E) : E \in SUBSET DPairs}
+  Tab(CASE Inputs = "dir" -> {MatOf(E) : E \in SUBSET DPairs}
     [] Inputs = "und" -> {MatOf(E \cup Rev(E)) : E \in SUBSET UPairs}
-    [] Inputs = "orient" -> {MatOf(Orient(E, s)) : E \in SUBSET UPairs, s \in {"both", "fwd", "alt", "mix"}}
+    [] Inputs = "orient" -> {MatOf(Orient(E, s)) : E \in SUBSET UPairs, s \in {"both", "fwd", "alt", "mix"}})
 
 NCls == NumClasses(K)
 As == SymSupport(N, A)
@@ -86,37 +86,37 @@ IdBag(a) == IF Funct THEN FunctIdBag(a) ELSE StructIdBag(a)
 Init == /\ A \in InputSet
         /\ pc = "u" /\ u = 1
         /\ L1 = <<>> /\ i1 = 0 /\ L2 = <<>> /\ i2 = 0 /\ L3 = <<>> /\ i3 = 0
-        /\ f = [id \in 1..NCls |-> 0]
-        /\ F = [id \in 1..NCls |-> [v \in 1..N |-> 0]]
+        /\ tot = [id \in 1..NCls |-> 0]
+        /\ cnt = [id \in 1..NCls |-> [v \in 1..N |-> 0]]
         /\ seen = <<>>
 
 Body(tup) ==
   LET a == TupCode(K, A, tup)
       bag == IdBag(a)
       nodes == {tup[k] : k \in 1..K}
-  IN /\ f' = [id \in 1..NCls |-> f[id] + BagGet(bag, id)]
-     /\ F' = [id \in 1..NCls |-> [v \in 1..N |-> F[id][v] + (IF v \in nodes THEN BagGet(bag, id) ELSE 0)]]
+  IN /\ tot' = [id \in 1..NCls |-> tot[id] + BagGet(bag, id)]
+     /\ cnt' = [id \in 1..NCls |-> [v \in 1..N |-> cnt[id][v] + (IF v \in nodes THEN BagGet(bag, id) ELSE 0)]]
      /\ seen' = Append(seen, tup)
 
 NextU == /\ pc = "u"
          /\ IF u > N - K + 1 THEN pc' = "done" /\ UNCHANGED <<L1, i1>>
             ELSE pc' = "v1" /\ L1' = Asc(V1Of(u)) /\ i1' = 1
-         /\ UNCHANGED <<A, u, L2, i2, L3, i3, f, F, seen>>
+         /\ UNCHANGED <<A, u, L2, i2, L3, i3, tot, cnt, seen>>
 NextV1 == /\ pc = "v1"
           /\ IF i1 > Len(L1) THEN pc' = "u" /\ u' = u + 1 /\ UNCHANGED <<L2, i2>>
              ELSE pc' = "v2" /\ L2' = Asc(V2Of(u, L1[i1])) /\ i2' = 1 /\ UNCHANGED u
-          /\ UNCHANGED <<A, L1, i1, L3, i3, f, F, seen>>
+          /\ UNCHANGED <<A, L1, i1, L3, i3, tot, cnt, seen>>
 NextV2 == /\ pc = "v2"
           /\ IF i2 > Len(L2)
-             THEN pc' = "v1" /\ i1' = i1 + 1 /\ UNCHANGED <<i2, L3, i3, f, F, seen>>
+             THEN pc' = "v1" /\ i1' = i1 + 1 /\ UNCHANGED <<i2, L3, i3, tot, cnt, seen>>
              ELSE IF K = 3
                   THEN Body(<<u, L1[i1], L2[i2]>>) /\ i2' = i2 + 1 /\ UNCHANGED <<pc, i1, L3, i3>>
                   ELSE pc' = "v3" /\ L3' = Asc(V3Of(u, L1[i1], L2[i2])) /\ i3' = 1
-                       /\ UNCHANGED <<i1, i2, f, F, seen>>
+                       /\ UNCHANGED <<i1, i2, tot, cnt, seen>>
           /\ UNCHANGED <<A, u, L1, L2>>
 NextV3 == /\ pc = "v3"
           /\ IF i3 > Len(L3)
-             THEN pc' = "v2" /\ i2' = i2 + 1 /\ UNCHANGED <<i3, f, F, seen>>
+             THEN pc' = "v2" /\ i2' = i2 + 1 /\ UNCHANGED <<i3, tot, cnt, seen>>
              ELSE Body(<<u, L1[i1], L2[i2], L3[i3]>>) /\ i3' = i3 + 1 /\ UNCHANGED <<pc, i2>>
           /\ UNCHANGED <<A, u, L1, i1, L2, L3>>
 Next == NextU \/ NextV1 \/ NextV2 \/ NextV3
@@ -128,7 +128,7 @@ NodeSetOf(t) == {t[k] : k \in DOMAIN t}
 SeenSets == {NodeSetOf(seen[k]) : k \in DOMAIN seen}
 (* the library the machine looks into: ids are a bijection between the motif      *)
 (* classes and 1..13 / 1..199 (so "the class of an id" is well defined)            *)
-ClsOfId == [id \in 1..NCls |-> CHOOSE cl \in Classes(K) : IdOfCode(cl) = id]
+ClsOfId == Tab([id \in 1..NCls |-> CHOOSE cl \in Classes(K) : IdOfCode(cl) = id])
 LibInv == /\ DOMAIN GenId(K) = ConnCodes(K)
           /\ \A c, d \in ConnCodes(K) : (IdOfCode(c) = IdOfCode(d)) <=> (ClassTab(K)[c] = ClassTab(K)[d])
           /\ {IdOfCode(c) : c \in ConnCodes(K)} = 1..NCls
@@ -148,9 +148,9 @@ OrderInv == \A L \in {L1, L2, L3} : \A k \in 1..(Len(L) - 1) : L[k] < L[k + 1]
 (* the counters always hold the counts over the tuples visited so far              *)
 PartialInv ==
   LET cls(t) == ClassTab(K)[SubCode(K, G0, NodeSetOf(t))] IN
-  ~Funct => /\ \A id \in 1..NCls : f[id] = Cardinality({k \in DOMAIN seen : cls(seen[k]) = ClsOfId[id]})
+  ~Funct => /\ \A id \in 1..NCls : tot[id] = Cardinality({k \in DOMAIN seen : cls(seen[k]) = ClsOfId[id]})
             /\ \A id \in 1..NCls : \A v \in 1..N :
-                  F[id][v] = Cardinality({k \in DOMAIN seen : cls(seen[k]) = ClsOfId[id] /\ v \in NodeSetOf(seen[k])})
+                  cnt[id][v] = Cardinality({k \in DOMAIN seen : cls(seen[k]) = ClsOfId[id] /\ v \in NodeSetOf(seen[k])})
 (* refinement: the finished machine has visited exactly the connected K-subsets and *)
 (* its counters are the L0 counts                                                   *)
 FinalInv ==
@@ -160,10 +160,10 @@ FinalInv ==
      /\ Len(seen) = Cardinality(ConnSubs(N, G0, K))
      /\ IF Funct
         THEN LET occs == FunctOccs(N, G0, K) IN
-             /\ \A id \in 1..NCls : f[id] = FunctTotal(K, occs, ClsOfId[id])
-             /\ \A id \in 1..NCls : \A v \in 1..N : F[id][v] = FunctNode(K, occs, ClsOfId[id], v)
-        ELSE /\ \A id \in 1..NCls : f[id] = StructTotal(occ, ClsOfId[id])
-             /\ \A id \in 1..NCls : \A v \in 1..N : F[id][v] = StructNode(occ, ClsOfId[id], v)
+             /\ \A id \in 1..NCls : tot[id] = FunctTotal(K, occs, ClsOfId[id])
+             /\ \A id \in 1..NCls : \A v \in 1..N : cnt[id][v] = FunctNode(K, occs, ClsOfId[id], v)
+        ELSE /\ \A id \in 1..NCls : tot[id] = StructTotal(occ, ClsOfId[id])
+             /\ \A id \in 1..NCls : \A v \in 1..N : cnt[id][v] = StructNode(occ, ClsOfId[id], v)
 
 (* ---- L0 lemmas, checked on every input (initial states only) -------------------- *)
 AtStart == pc = "u" /\ u = 1 /\ Lemmas
